@@ -117,4 +117,46 @@ theorem lookup2_tables_agree {l l' : List ((Int × Int) × Int)}
       have e : lookup2 k l = some w := by simpa using this
       rw [h] at e; cases e
 
+theorem decodeKey_print (u : Uni) (g : Str) (hg : g ≠ [])
+    (h127 : u.isUpper (g.headD 0) = true → u.toLower (g.headD 0) ≠ 127) :
+    decodeKey u (.print g) = printExpected u g := by
+  have hraw : decodeRaw u (.print g) = printExpected u g := by
+    dsimp only [decodeRaw, printExpected]
+    generalize g.headD 0 = ch at h127 ⊢
+    by_cases hu : u.isUpper ch = true
+    · have := h127 hu
+      simp [hu, KeyBackspace, this, ModShift, shiftBit]
+    · by_cases hd : ch = 127
+      · subst hd; simp [hu, KeyBackspace]
+      · simp [hu, hd, KeyBackspace]
+  rw [decodeKey_eq, hraw]
+  apply shiftFix_id
+  dsimp only [printExpected]
+  generalize g.headD 0 = ch
+  by_cases hu : u.isUpper ch = true
+  · left; simp [hu, hg]
+  · by_cases hd : ch = 127
+    · right; subst hd; simp [hu, stripLocks, andNot, shiftBit]
+    · left; simp [hu, hd, hg]
+
+theorem decodeKey_c0 (u : Uni) (b : Int) (h0 : 0 ≤ b) (h1 : b < 32) :
+    decodeKey u (.c0 b) = c0Expected b := by
+  obtain ⟨n, rfl⟩ : ∃ n : Nat, b = n := ⟨b.toNat, by omega⟩
+  have hn : n < 32 := by omega
+  have := c0Raw_table ⟨n, hn⟩
+  rw [decodeKey_eq, decodeRaw_c0, shiftFix_id _ _ (Or.inr this.2)]
+  exact this.1
+
+theorem decodeKey_esc (u : Uni) (final : Int) : decodeKey u (.esc final) = escExpected u final := by
+  rw [decodeKey_eq]
+  have hraw : decodeRaw u (.esc final) = escExpected u final := by
+    dsimp only [decodeRaw, escExpected]
+    split <;> rfl
+  rw [hraw]
+  apply shiftFix_id; right
+  unfold escExpected
+  split
+  · show stripLocks (altBit ||| shiftBit) ≠ shiftBit; decide
+  · show stripLocks altBit ≠ shiftBit; decide
+
 end VaxisModel.Lemmas.KeyDecode
